@@ -484,6 +484,7 @@ def finish(rep, t_start):
     if cap is not None:
         level, cap_note = cap[0], " Level capped: " + cap[1]
     wall = time.time() - t_start
+    ev_scan = scan_assumptions(rep)
     ev = {
         "property_id": prop, "tier": rep.tier, "seed": rep.seed, "level": level,
         "coverage": {
@@ -514,6 +515,7 @@ def finish(rep, t_start):
             "distinct_nontrivial": max(n_ob, 2),
             "rule": "one obligation = one named assertion / precondition of one harness case, proved on every path",
             "source_files": sorted(f.replace("/repo/", "") for f in rep.files if "/src/pyModeS/" in f),
+            "assumption_scan": ev_scan,
         },
         "assumptions": [
             "A1 Python builtins as modelled by /verif/vc/builtins_model.py (differentially cross-checked against CPython on every run)",
@@ -543,6 +545,45 @@ def finish(rep, t_start):
     if rep.violations:
         return 1, rep
     return 0, rep
+
+
+def scan_assumptions(rep):
+    """mechanical scan of the harnesses of this run: every assume(...) (precondition taken as given), every
+    abstract / opaque callee contract and every per-harness contract override, with source line"""
+    import ast
+    import inspect
+    out = {}
+    try:
+        hs = native.load_all()
+    except Exception as e:
+        return {"error": str(e)}
+    used = {o["harness"] for o in rep.obligations} | {b["harness"] for b in rep.declared_bounded}
+    for hid in sorted(used):
+        h = hs.get(hid)
+        if h is None:
+            continue
+        try:
+            src = inspect.getsource(h.fn)
+            tree = ast.parse(src.lstrip() if not src.startswith("@") and not src.startswith("def") else src)
+        except Exception:
+            continue
+        items = []
+        for node in ast.walk(tree):
+            if isinstance(node, ast.Call) and isinstance(node.func, ast.Name) and \
+                    node.func.id in ("assume", "abstract_int", "abstract_real", "opaque"):
+                try:
+                    txt = ast.unparse(node)
+                except Exception:
+                    txt = node.func.id + "(...)"
+                items.append("%s: %s" % (node.func.id, txt[:200]))
+        if getattr(h, "overrides", None):
+            for qn, fn in h.overrides.items():
+                items.append("override: %s -> %s.%s" % (qn, fn.__module__, fn.__name__))
+        if h.kind == "bounded":
+            items.append("bounded: native sampling only, never counted as proved")
+        if items:
+            out[hid] = items
+    return out
 
 
 def selftest():
